@@ -193,6 +193,33 @@ fn observe(
   Ok(())
 }
 
+/// bytes -> case (fuzz target `hist_c05`)
+pub fn case_from_bytes(data: &[u8]) -> Case {
+  use crate::gen::AbsRepl;
+  let mut c = crate::from_bytes::Cur::new(data);
+  let cfg = inner_cfg();
+  let inner = crate::gen::normalize(crate::from_bytes::spec(&mut c, cfg.depth, cfg), cfg);
+  let t = model_text(&inner);
+  let np = 1 + c.below(5);
+  let pool: Vec<u16> = (0..np).map(|_| c.u16()).collect();
+  let mut ops = vec![];
+  while !c.done() && ops.len() < 40 {
+    let k = c.u8();
+    ops.push(match k % 10 {
+      0..=5 => {
+        let flags = c.u8();
+        let content = if flags & 0x20 != 0 { String::new() } else { crate::from_bytes::text_cfg(&mut c, GenCfg { max_tokens: 3, ..cfg }) };
+        let a = AbsRepl::new(c.u16(), c.u16(), flags & 3 == 0, if flags & 0x1c == 0 { 1 + (flags >> 5) % 3 } else { 0 }, content, c.u8() % 6, c.u8() % 3);
+        Op::Mut(concretize_repls(&t, &pool, &[a], true).pop().unwrap())
+      }
+      6 | 7 => Op::Obs(c.u8() % OBSERVERS.len() as u8),
+      8 => Op::Fork,
+      _ => Op::Switch(c.u8() % 4),
+    });
+  }
+  Case { inner, ops }
+}
+
 impl Prop for C05 {
   type Case = Case;
   const ID: &'static str = "C05";
@@ -211,6 +238,13 @@ impl Prop for C05 {
       Leg { name: "long histories (>20 replacements, colliding keys)", source: Cases::Generated(Box::new(strategy_long), 100_000, 1_500_000) },
       Leg { name: "very long histories (>128 replacements, colliding keys)", source: Cases::Generated(Box::new(strategy_very_long), 6_000, 80_000) },
     ]
+  }
+  fn stages(&self, ctx: &Ctx) -> Vec<Stage> {
+    if ctx.tier == Tier::Thorough {
+      crate::fuzz::campaigns("C05", &["hist_c05"], ctx)
+    } else {
+      vec![]
+    }
   }
   fn check(&self, case: &Case) -> CheckResult {
     let text = model_text(&case.inner);
